@@ -29,6 +29,12 @@ const (
 	KCMsg  = "cmsg"  // updateNewChannelMessage        channel pts +1 -> channel new_messages
 	KCDel  = "cdel"  // updateDeleteChannelMessages    channel pts +1 -> channel other_updates
 	KCEdit = "cedit" // updateEditChannelMessage       channel pts +1 -> channel other_updates
+	// Zero-count updates: they carry the pts their sequence had when they happened and
+	// pts_count 0, i.e. they do not advance the sequence. They must not be the first entry of
+	// their sequence (no real update carries position 0).
+	KWeb   = "web"   // updateWebPage pts_count 0      common pts +0  -> other_updates
+	KCRead = "cread" // updateReadChannelInbox         channel pts +0 -> channel other_updates
+	KCWeb  = "cweb"  // updateChannelWebPage count 0   channel pts +0 -> channel other_updates
 )
 
 // Sequence names.
@@ -61,6 +67,10 @@ func (e Entry) Class() string {
 		return "message"
 	case KDel, KDel2, KRead, KEdit:
 		return "other-pts-update"
+	case KWeb:
+		return "zero-count-pts-update"
+	case KCRead, KCWeb:
+		return "channel-zero-count-pts-update"
 	case KEnc:
 		return "secret-message"
 	case KQBot:
@@ -93,9 +103,14 @@ func ParseLog(kinds []string) ([]Entry, error) {
 			e.Seq = SeqPts
 		case KDel2:
 			e.Seq, e.Count = SeqPts, 2
+		case KWeb:
+			e.Seq, e.Count = SeqPts, 0
 		case KEnc, KQBot:
 			e.Seq = SeqQts
-		case KCMsg, KCDel, KCEdit:
+		case KCMsg, KCDel, KCEdit, KCRead, KCWeb:
+			if name == KCRead || name == KCWeb {
+				e.Count = 0
+			}
 			n := 1
 			if hasCh {
 				var err error
@@ -110,6 +125,9 @@ func ParseLog(kinds []string) ([]Entry, error) {
 		}
 		pos[e.Seq] += e.Count
 		e.End = pos[e.Seq]
+		if e.End == 0 {
+			return nil, errors.Errorf("zero-count entry %q at position 0", k)
+		}
 		out = append(out, e)
 	}
 	return out, nil
@@ -409,6 +427,12 @@ func (s *Server) Update(e Entry) tg.UpdateClass {
 		return &tg.UpdateNewChannelMessage{Message: &tg.Message{ID: e.ID, PeerID: &tg.PeerChannel{ChannelID: e.Chan}, Message: "c", Date: EntryDate(e.Idx)}, Pts: e.End, PtsCount: e.Count}
 	case KCDel:
 		return &tg.UpdateDeleteChannelMessages{ChannelID: e.Chan, Messages: []int{e.ID}, Pts: e.End, PtsCount: e.Count}
+	case KWeb:
+		return &tg.UpdateWebPage{Webpage: &tg.WebPageEmpty{ID: int64(e.ID)}, Pts: e.End, PtsCount: 0}
+	case KCRead:
+		return &tg.UpdateReadChannelInbox{ChannelID: e.Chan, MaxID: e.ID, Pts: e.End}
+	case KCWeb:
+		return &tg.UpdateChannelWebPage{ChannelID: e.Chan, Webpage: &tg.WebPageEmpty{ID: int64(e.ID)}, Pts: e.End, PtsCount: 0}
 	case KCEdit:
 		return &tg.UpdateEditChannelMessage{Message: &tg.Message{ID: e.ID, PeerID: &tg.PeerChannel{ChannelID: e.Chan}, Message: "ce", Date: EntryDate(e.Idx)}, Pts: e.End, PtsCount: e.Count}
 	}
@@ -429,6 +453,22 @@ func (s *Server) Push(i int, envelope string) tg.UpdatesClass {
 	default:
 		return &tg.Updates{Updates: []tg.UpdateClass{u}, Date: EntryDate(i)}
 	}
+}
+
+// PushContainer builds one updates envelope that carries several log entries in the given order.
+func (s *Server) PushContainer(idx []int, envelope string) tg.UpdatesClass {
+	var us []tg.UpdateClass
+	date := 0
+	for _, i := range idx {
+		us = append(us, s.Update(s.Log[i]))
+		if d := EntryDate(i); d > date {
+			date = d
+		}
+	}
+	if envelope == "combined" {
+		return &tg.UpdatesCombined{Updates: us, Date: date}
+	}
+	return &tg.Updates{Updates: us, Date: date}
 }
 
 // Identify maps an update seen by the handler (or held by the engine) back to the log entry
@@ -467,6 +507,16 @@ func (s *Server) Identify(u any) int {
 	case *tg.UpdateEditChannelMessage:
 		if m, ok := u.Message.(*tg.Message); ok {
 			id, kind = m.ID, KCEdit
+		}
+	case *tg.UpdateWebPage:
+		if p, ok := u.Webpage.(*tg.WebPageEmpty); ok {
+			id, kind = int(p.ID), KWeb
+		}
+	case *tg.UpdateReadChannelInbox:
+		id, kind = u.MaxID, KCRead
+	case *tg.UpdateChannelWebPage:
+		if p, ok := u.Webpage.(*tg.WebPageEmpty); ok {
+			id, kind = int(p.ID), KCWeb
 		}
 	case *tg.UpdatesCombined:
 		// seq envelope: identified by its first update, offset to keep it distinct
